@@ -34,7 +34,7 @@ def setup(run):
 
 
 def _segments(rng, ploidy, male_ref, female, pre, par, has_cn):
-    regs = [(pre + "1", 0), (pre + "1", 5_000_000), (pre + "2", 1_000_000), (pre + "X", 30_000_000), (pre + "Y", 20_000_000)]
+    regs = [(pre + "2", 0), (pre + "2", 5_000_000), (pre + "10", 1_000_000), (pre + "X", 30_000_000), (pre + "Y", 20_000_000)]     # natural order (2, 10) differs from string order
     if par and has_cn:
         px, py = CN.PAR[par]["X"], CN.PAR[par]["Y"]
         regs += [(pre + "X", px[0][0] + 100_000), (pre + "Y", py[0][0] + 100_000)]
@@ -57,7 +57,7 @@ def _segments(rng, ploidy, male_ref, female, pre, par, has_cn):
             cols["chromosome"].append(c); cols["start"].append(pos); cols["end"].append(pos + ln); cols["gene"].append(str(rng.choice(["A", "B,C", "-"])))
             cols["log2"].append(lg); cols["probes"].append(int(rng.integers(1, 500))); cols["weight"].append(float(rng.uniform(1, 50))); cols["cn"].append(n)
             pos += ln + int(rng.choice([0, 10_000]))
-    order = sorted(range(len(cols["start"])), key=lambda k: (["1", "2", "X", "Y"].index(cols["chromosome"][k].replace("chr", "")), cols["start"][k]))
+    order = sorted(range(len(cols["start"])), key=lambda k: (["2", "10", "X", "Y"].index(cols["chromosome"][k].replace("chr", "")), cols["start"][k]))
     cols = {k: [v[i] for i in order] for k, v in cols.items()}
     if not has_cn:
         del cols["cn"]
